@@ -171,7 +171,17 @@ def _search(calls, typ_of, exp, residual, world) -> bool:
 
     def dfs(done: frozenset, buf: tuple) -> bool:
         if len(done) == len(ids):
-            return [b for b, _ in buf] == list(residual)
+            mine = [b for b, _ in buf]
+            if mine == list(residual):
+                return True
+            # the engine may keep extra *surplus* events in its buffer (events the sequential buffer would have
+            # dropped); that loses nothing.  Every event the model buffers must be there, and every extra one must be
+            # of a type that is already complete in the buffer.
+            if not set(mine) <= set(residual):
+                return False
+            have = Counter(t for _, t in buf)
+            need = Counter(exp)
+            return all(have[typ_of.get(x)] >= need[typ_of.get(x)] for x in residual if x not in mine)
         key = (done, buf)
         if key in seen:
             return False
